@@ -296,6 +296,18 @@ def ReadsList (h : LHeap) : List Loc → List MLoc → Prop
   | _, _ => False
 end
 
+mutual
+/-- nesting depth of a location value (`asCompleteMem` needs that much fuel) -/
+def mdepth : Loc → Nat
+  | .joined ls => mdepthList ls + 1
+  | .ordered ls => mdepthList ls + 1
+  | .compl l => mdepth l + 1
+  | _ => 1
+def mdepthList : List Loc → Nat
+  | [] => 0
+  | l :: ls => max (mdepth l) (mdepthList ls)
+end
+
 /-- the slice arrays reachable from `m` in `h`, in preorder, empty slices left out (what the
 harness collects by pointer); `fuel` bounds the depth -/
 def sliceArrs (h : LHeap) : Nat → MLoc → List Nat
